@@ -897,7 +897,7 @@ func TestStructValue(t *testing.T) {
 			}
 			return out
 		},
-		Quick: 40000, Thorough: 250000,
+		Quick: 40000, Thorough: 200000,
 	})
 }
 
